@@ -8,8 +8,11 @@ import DvidModel.Props.C01
   order theorems apply to them (listing order = ascending key order; one datum's versions are contiguous);
   (3) the prefix-free hypothesis is necessary: with prefix-related datum keys the scan merges two datums
   into one group (decided witness; the harness runs the real code at that excluded point).
-  The grouping loop itself (`versionedRange` = group-by-datum under sortedness + prefix-freeness) is tied to
-  the code by differential execution on raw key dumps, not yet by a theorem — see DESIGN.md §4 C05.
+  (4) the grouping loop itself: when the iterator delivers the groups of distinct datums in scan order (each
+  inside its own version bracket and beyond the bracket of every earlier datum — C06 `versions_in_bracket`,
+  `later_datum_beyond_bracket`), `versionedRange` emits exactly the resolution of every datum of the range, in
+  order (`versionedRange_eq_groups`); the loop's mirror is tied to the code by differential execution on raw
+  key dumps.
 -/
 namespace Dvid.Props.C05
 open Dvid Dvid.Key Dvid.Resolve Dvid.Range Dvid.Store
@@ -238,5 +241,171 @@ theorem deleteRange_commits_all (n : Nat) : Range.deleteRangeCommitted Gen.delet
   · rename_i h
     have : n % Gen.deleteRangeBatchSize = 0 := by omega
     omega
+
+end Dvid.Props.C05
+
+namespace Dvid.Props.C05
+open Dvid Dvid.Key Dvid.Resolve Dvid.Range Dvid.Store
+
+/-! ### the grouping loop of `versionedRange` -/
+
+/-- a datum's group: its keys are data keys of that datum inside its version bracket -/
+def GroupOK (i : Nat) (g : Bytes × List Bytes) : Prop :=
+  g.2 ≠ [] ∧ ∀ k ∈ g.2, isDataKey k = true ∧ tkeyFromKey k = some g.1 ∧ cmpBytes k (maxVersionKey i g.1) ≠ .gt
+
+/-- groups in scan order: every key of a later group lies beyond the version bracket of an earlier datum -/
+def Chain (i : Nat) : List (Bytes × List Bytes) → Prop
+  | [] => True
+  | g :: rest => GroupOK i g ∧ (∀ g' ∈ rest, ∀ k ∈ g'.2, cmpBytes k (maxVersionKey i g.1) = .gt) ∧ Chain i rest
+
+/-- what the scan has emitted once the iterator is exhausted -/
+def final (d : Dag) (v : Nat) (st : St) : List Item := if st.done then st.out else st.out ++ sendKV d v st.values
+
+theorem sendKV_nil (d : Dag) (v : Nat) : sendKV d v [] = [] := by simp [sendKV]
+
+theorem fold_done (d : Dag) (i v : Nat) (maxKey : Bytes) (ks : List Bytes) (st : St) (h : st.done = true) :
+    ks.foldl (stepKey d i v maxKey) st = st := by
+  induction ks with
+  | nil => rfl
+  | cons k rest ih => simp only [List.foldl_cons, stepKey, h, if_true]; exact ih
+
+/-- keys inside the current bracket and inside the range are collected -/
+theorem fold_collect (d : Dag) (i v : Nat) (maxKey : Bytes) (ks : List Bytes) :
+    ∀ st : St, st.done = false → (∀ k ∈ ks, cmpBytes k st.maxVK ≠ .gt ∧ cmpBytes k maxKey ≠ .gt) →
+      ks.foldl (stepKey d i v maxKey) st = { st with values := st.values ++ ks } := by
+  induction ks with
+  | nil => intro st _ _; simp
+  | cons k rest ih =>
+    intro st hd h
+    obtain ⟨h1, h2⟩ := h k (by simp)
+    have hs : stepKey d i v maxKey st k = { st with values := st.values ++ [k] } := by
+      unfold stepKey
+      simp only [hd, Bool.false_eq_true, if_false, beq_iff_eq, h1, h2]
+    simp only [List.foldl_cons, hs]
+    rw [ih { st with values := st.values ++ [k] } hd (fun k' hk' => h k' (by simp [hk']))]
+    simp
+
+/-- a key beyond the current bracket starts the next datum: the pending group is resolved and emitted -/
+theorem fold_group (d : Dag) (i v : Nat) (maxKey : Bytes) (g : Bytes × List Bytes) (st : St) (hd : st.done = false)
+    (hg : GroupOK i g) (hnew : ∀ k ∈ g.2, cmpBytes k st.maxVK = .gt) (hin : ∀ k ∈ g.2, cmpBytes k maxKey ≠ .gt) :
+    g.2.foldl (stepKey d i v maxKey) st =
+      { maxVK := maxVersionKey i g.1, values := g.2, out := st.out ++ sendKV d v st.values, done := false } := by
+  obtain ⟨tk, ks⟩ := g
+  cases ks with
+  | nil => exact absurd rfl hg.1
+  | cons k rest =>
+    obtain ⟨a, b, c⟩ := hg.2 k (by simp)
+    have hs : stepKey d i v maxKey st k =
+        { maxVK := maxVersionKey i tk, values := [k], out := st.out ++ sendKV d v st.values, done := false } := by
+      unfold stepKey
+      simp only [hd, Bool.false_eq_true, if_false, hnew k (by simp), beq_self_eq_true, if_true, a, b, beq_iff_eq,
+        hin k (by simp), List.nil_append]
+    simp only [List.foldl_cons, hs]
+    rw [fold_collect d i v maxKey rest _ rfl (fun k' hk' => ⟨(hg.2 k' (by simp [hk'])).2.2, hin k' (by simp [hk'])⟩)]
+    simp
+
+/-- the first key beyond the range ends the scan after the pending group was resolved -/
+theorem step_outside (d : Dag) (i v : Nat) (maxKey : Bytes) (st : St) (k : Bytes) (hd : st.done = false)
+    (hout : cmpBytes k maxKey = .gt) :
+    (stepKey d i v maxKey st k).done = true ∧ (stepKey d i v maxKey st k).out = st.out ++ sendKV d v st.values := by
+  unfold stepKey
+  simp only [hd, Bool.false_eq_true, if_false, hout, beq_self_eq_true, if_true]
+  split
+  · simp [sendKV_nil]
+  · simp
+
+theorem scan_groups (d : Dag) (i v : Nat) (maxKey : Bytes) (ins outs : List (Bytes × List Bytes)) :
+    ∀ st : St, st.done = false → Chain i (ins ++ outs) →
+      (∀ g ∈ ins ++ outs, ∀ k ∈ g.2, cmpBytes k st.maxVK = .gt) →
+      (∀ g ∈ ins, ∀ k ∈ g.2, cmpBytes k maxKey ≠ .gt) → (∀ g ∈ outs, ∀ k ∈ g.2, cmpBytes k maxKey = .gt) →
+      final d v (((ins ++ outs).flatMap (·.2)).foldl (stepKey d i v maxKey) st) =
+        st.out ++ sendKV d v st.values ++ ins.flatMap (fun g => sendKV d v g.2) := by
+  induction ins with
+  | nil =>
+    intro st hd hc hnew _ hout
+    simp only [List.nil_append, List.flatMap_nil, List.append_nil]
+    cases outs with
+    | nil => simp [final, hd]
+    | cons g rest =>
+      obtain ⟨tk, ks⟩ := g
+      cases ks with
+      | nil => exact absurd rfl hc.1.1
+      | cons k ks' =>
+        simp only [List.flatMap_cons, List.cons_append, List.foldl_cons]
+        obtain ⟨h1, h2⟩ := step_outside d i v maxKey st k hd (hout (tk, k :: ks') (by simp) k (by simp))
+        rw [fold_done d i v maxKey _ _ h1]
+        simp [final, h1, h2]
+  | cons g ins' ih =>
+    intro st hd hc hnew hin hout
+    simp only [List.cons_append, List.flatMap_cons, List.foldl_append]
+    simp only [List.cons_append] at hc hnew
+    rw [fold_group d i v maxKey g st hd hc.1 (hnew g (by simp)) (hin g (by simp))]
+    rw [ih _ rfl hc.2.2 (fun g' hg' k hk => hc.2.1 g' hg' k hk) (fun g' hg' => hin g' (by simp [hg'])) hout]
+    simp [List.append_assoc]
+
+/-- **`versionedRange` = group by datum, resolve each group**: when the keys the iterator delivers from
+    `Seek(minKey)` on are the groups of distinct datums in scan order (each group inside its own version bracket
+    and beyond the bracket of every earlier datum — what sortedness and prefix-freeness of the datum keys give,
+    `kv_versions_contiguous`), `ins` the datums up to the end of the range and `outs` the ones beyond it, then
+    the scan emits exactly the resolution of every datum of the range, in order, and nothing else -/
+theorem versionedRange_eq_groups (d : Dag) (i v : Nat) (beg fin : Bytes) (raw : List Bytes)
+    (ins outs : List (Bytes × List Bytes))
+    (hstart : raw.dropWhile (fun k => cmpBytes k (minVersionKey i beg) == .lt) = (ins ++ outs).flatMap (·.2))
+    (hc : Chain i (ins ++ outs))
+    (hnew : ∀ g ∈ ins ++ outs, ∀ k ∈ g.2, cmpBytes k (maxVersionKey i beg) = .gt)
+    (hin : ∀ g ∈ ins, ∀ k ∈ g.2, cmpBytes k (maxVersionKey i fin) ≠ .gt)
+    (hout : ∀ g ∈ outs, ∀ k ∈ g.2, cmpBytes k (maxVersionKey i fin) = .gt) :
+    versionedRange d i v beg fin raw = ins.flatMap (fun g => sendKV d v g.2) := by
+  have h := scan_groups d i v (maxVersionKey i fin) ins outs
+    { maxVK := maxVersionKey i beg, values := [], out := [], done := false } rfl hc hnew hin hout
+  unfold versionedRange
+  simp only [hstart]
+  unfold final at h
+  simp only [sendKV_nil, List.append_nil, List.nil_append] at h
+  exact h
+
+/-- the same when the first datum of the scan is `beg` itself (its keys lie inside the initial bracket) -/
+theorem versionedRange_eq_groups_from_beg (d : Dag) (i v : Nat) (beg fin : Bytes) (raw : List Bytes)
+    (ks : List Bytes) (ins outs : List (Bytes × List Bytes))
+    (hstart : raw.dropWhile (fun k => cmpBytes k (minVersionKey i beg) == .lt) = ks ++ (ins ++ outs).flatMap (·.2))
+    (hks : ∀ k ∈ ks, cmpBytes k (maxVersionKey i beg) ≠ .gt ∧ cmpBytes k (maxVersionKey i fin) ≠ .gt)
+    (hc : Chain i (ins ++ outs))
+    (hnew : ∀ g ∈ ins ++ outs, ∀ k ∈ g.2, cmpBytes k (maxVersionKey i beg) = .gt)
+    (hin : ∀ g ∈ ins, ∀ k ∈ g.2, cmpBytes k (maxVersionKey i fin) ≠ .gt)
+    (hout : ∀ g ∈ outs, ∀ k ∈ g.2, cmpBytes k (maxVersionKey i fin) = .gt) :
+    versionedRange d i v beg fin raw = sendKV d v ks ++ ins.flatMap (fun g => sendKV d v g.2) := by
+  unfold versionedRange
+  simp only [hstart, List.foldl_append]
+  rw [fold_collect d i v (maxVersionKey i fin) ks _ rfl hks]
+  have h := scan_groups d i v (maxVersionKey i fin) ins outs
+    { maxVK := maxVersionKey i beg, values := [] ++ ks, out := [], done := false } rfl hc hnew hin hout
+  unfold final at h
+  simp only [List.nil_append] at h
+  exact h
+
+
+instance (i : Nat) (g : Bytes × List Bytes) : Decidable (GroupOK i g) := by unfold GroupOK; infer_instance
+instance chainDec (i : Nat) : (gs : List (Bytes × List Bytes)) → Decidable (Chain i gs)
+  | [] => isTrue trivial
+  | g :: rest => by
+    unfold Chain
+    have := chainDec i rest
+    infer_instance
+
+/- Non-vacuity: two key-value datums "a" (versions 1 and 2) and "b" (a tombstone at version 2) of instance 1, a
+   range from the lowest to the highest key-value datum key: the hypotheses of `versionedRange_eq_groups` hold for
+   the real key encodings, and the scan is the resolution of the two groups. -/
+example :
+    let ka := kvTKey [97]
+    let kb := kvTKey [98]
+    let a1 := constructDataKey 1 1 0 ka
+    let a2 := constructDataKey 1 2 0 ka
+    let b2 := tombstoneKey 1 2 0 kb
+    let ins : List (Bytes × List Bytes) := [(ka, [a1, a2]), (kb, [b2])]
+    Chain 1 (ins ++ []) ∧
+    (∀ g ∈ ins ++ [], ∀ k ∈ g.2, cmpBytes k (maxVersionKey 1 (minTKey 177)) = .gt) ∧
+    (∀ g ∈ ins, ∀ k ∈ g.2, cmpBytes k (maxVersionKey 1 (maxTKey 177)) ≠ .gt) ∧
+    [a1, a2, b2].dropWhile (fun k => cmpBytes k (minVersionKey 1 (minTKey 177)) == .lt) = (ins ++ []).flatMap (fun (g : Bytes × List Bytes) => g.2) := by
+  decide
 
 end Dvid.Props.C05
